@@ -52,6 +52,12 @@ class Sandbox:
         w("schema.graphql", SCHEMA)
         w("queries.graphql", QUERIES)
         w("bad_syntax.graphql", "type Query { a: Int ")
+        w("empty.graphql", "")
+        w("blank.graphql", "  \n\t\n")
+        w("schema_dir_with_empty/a.graphql", SCHEMA)
+        w("schema_dir_with_empty/b_empty.graphql", "\n")
+        w("queries_dir_with_empty/a.graphql", QUERIES)
+        w("queries_dir_with_empty/b_empty.graphql", "   ")
         w("bad_queries.graphql", "query Q { user(id: 1) { ")
         w("invalid_op_unknown_field.graphql", "query Q { user(id: 1) { nope } }")
         w("invalid_op_missing_arg.graphql", "query Q { user { id } }")
@@ -161,6 +167,13 @@ def _violations(sb):
         ("bad-target-file-type:no-suffix", "schema", S(target_file_path=sb.p("schema_out/python")), (EX.InvalidConfiguration,)),
         ("schema-strategy-no-source", "schema", S(schema_path=_DROP), (EX.InvalidConfiguration, EX.MissingConfiguration)),
         ("schema-strategy-syntax", "schema", S(schema_path=sb.p("bad_syntax.graphql")), (EX.InvalidGraphqlSyntax,)),
+        # a file without any definition is not a GraphQL document (single file or one file of a directory, schema or operations)
+        ("empty-schema-file", "client", C(schema_path=sb.p("empty.graphql")), (EX.InvalidGraphqlSyntax,)),
+        ("blank-schema-file:graphqlschema", "schema", S(schema_path=sb.p("blank.graphql")), (EX.InvalidGraphqlSyntax,)),
+        ("blank-queries-file", "client", C(queries_path=sb.p("blank.graphql")), (EX.InvalidGraphqlSyntax,)),
+        ("empty-file-in-schema-directory", "client", C(schema_path=sb.p("schema_dir_with_empty")), (EX.InvalidGraphqlSyntax,)),
+        ("empty-file-in-schema-directory:graphqlschema", "schema", S(schema_path=sb.p("schema_dir_with_empty")), (EX.InvalidGraphqlSyntax,)),
+        ("blank-file-in-queries-directory", "client", C(queries_path=sb.p("queries_dir_with_empty")), (EX.InvalidGraphqlSyntax,)),
         # the same failures with a target file that does not exist yet in the existing directory (no file may appear)
         ("schema-strategy-syntax:fresh-target", "schema", S(schema_path=sb.p("bad_syntax.graphql"), target_file_path=sb.p("schema_out/fresh_schema.py")), (EX.InvalidGraphqlSyntax,)),
         ("schema-strategy-syntax:fresh-graphql-target", "schema", S(schema_path=sb.p("bad_syntax.graphql"), target_file_path=sb.p("schema_out/fresh_schema.graphql")), (EX.InvalidGraphqlSyntax,)),
@@ -236,7 +249,13 @@ def bounded_rejections(tier, seed):
                                     ("valid-client-scalars", "client", sb.client_cfg(scalars={"DateTime": {"type": "datetime.datetime"}})),
                                     ("valid-client-boolean-comments", "client", sb.client_cfg(include_comments=False)),
                                     ("valid-schema", "schema", sb.schema_cfg()),
-                                    ("valid-schema-unknown-keys", "schema", sb.schema_cfg(whatever=True))):
+                                    ("valid-schema-unknown-keys", "schema", sb.schema_cfg(whatever=True)),
+                                    # one section shared by both commands: each ignores the keys of the other
+                                    ("valid-schema-with-the-client-keys-present", "schema",
+                                     sb.schema_cfg(queries_path=sb.p("queries.graphql"), target_package_name="graphql_client", client_name="Client",
+                                                   include_comments="none", scalars={"DateTime": {"type": "datetime.datetime"}}, async_client=False)),
+                                    ("valid-client-with-the-schema-keys-present", "client",
+                                     sb.client_cfg(target_file_path=sb.p("schema_out/schema.py"), schema_variable_name="schema", type_map_variable_name="type_map"))):
             cases += 1
             exc, unmutated = _run(strategy, cfg)
             bad = []
